@@ -848,7 +848,7 @@ def rule_charts_first(chk, fb, rid="C02.c.charts"):
         lp = [i for i in range(1, b["argc"] + 1) if fb.ty(b["locals"][i]["t"]) == LIST]
         if not lp:
             continue
-        takers = [(bi, t) for bi, t in fl.calls() if t.get("fn", "") in fb.mir and any(("arg", lp[0]) in fl.atoms(a, through_calls=False) for a in t["args"])]
+        takers = [(bi, t) for bi, t in fl.calls() if (t.get("fn", "") in fb.mir or t.get("fn", "").split("::")[-1] in ("for_each", "fold", "try_for_each")) and any(("arg", lp[0]) in fl.atoms(a, through_calls=False) for a in t["args"])]
         chart = [bi for bi, t in takers if any(x[0] == "field" and x[2] == "chart_collection" for a in t["args"] for x in fl.atoms(a))]
         others = [bi for bi, t in takers if bi not in chart]
         chk.touch(d)
@@ -858,7 +858,9 @@ def rule_charts_first(chk, fb, rid="C02.c.charts"):
             body = cfg.natural_loop(tl, h)
             if any(c in body for c in chart):
                 heads.add(h)
-        ok = bool(heads) and all(any(cfg.dominates(h, o) for h in heads) for o in others)
+        # without loops (iterator chains with closures) the registering calls themselves are ordered by dominance
+        firsts = heads or set(chart)
+        ok = bool(firsts) and all(any(cfg.dominates(h, o) for h in firsts) for o in others)
         chk.ob(r, "WorksheetDrawing::write_to", ok, where=fb.loc(d), detail="%d call(s) register chart anchors, %d register other anchors; all others come after the chart loop: %s" % (len(chart), len(others), ok))
 
 
